@@ -207,6 +207,9 @@ impl<'a> Tx<'a> {
             syn::Expr::Lit(_) => toks(e),
             syn::Expr::Path(p) => {
                 let s = path_str(&p.path);
+                if self.ops && s == "self" {
+                    return "this".to_string(); // the object the method is called on
+                }
                 s
             }
             syn::Expr::Paren(p) => format!("({})", self.expr(&p.expr)),
@@ -621,6 +624,16 @@ impl<'a> Tx<'a> {
                 format!("self.{}({})", name, args.join(", "))
             }
             "as_ref" if self.ops => self.expr(&m.receiver),
+            "is_subset" | "is_disjoint" | "is_superset" if self.ops && !self.wrap => {
+                let r = self.expr(&m.receiver);
+                let args: Vec<String> = m.args.iter().filter(|a| !is_drop_arg(a)).map(|a| self.expr(a)).collect();
+                format!("{}(h, {}, {})", name, r, args.join(", "))
+            }
+            "contains" if self.ops => {
+                let r = self.expr(&m.receiver);
+                let args: Vec<String> = m.args.iter().filter(|a| !is_drop_arg(a)).map(|a| self.expr(a)).collect();
+                format!("contains(h, {}, {})", r, args.join(", "))
+            }
             "unwrap" | "expect" if self.ops && toks(&*m.receiver).replace(' ', "").starts_with("self.") => format!("{}.unwrap()", self.expr(&m.receiver)),
             "next_table" if self.ops => format!("h.next_table({})", self.expr(&m.receiver)),
             "iter" if self.ops && toks(&*m.receiver) == "self" => "iter_new(h, this)".to_string(),
